@@ -37,6 +37,19 @@ def sweeps(ck):
                 o = dict(obs)
                 o.update({'outcome': 'signal', 'fail': [], 'gated': True, 'stderr_tail': ''})
                 found.append((o, V['C10']))
+    # watch mode: the input changes while the build script runs, then the signal arrives
+    m = 4 if ck.tier == 'quick' else 40
+    jobs2 = [random.Random(ck.rng.getrandbits(48)) for _ in range(m)]
+    with concurrent.futures.ThreadPoolExecutor(max_workers=4) as ex:
+        for obs, V in ex.map(lambda r: sysrun.watch_signal_midbuild(r, tag='C10w%d' % r.getrandbits(20)), jobs2):
+            ck.count(('sigmid', json.dumps(obs['targets'], sort_keys=True), obs['when'], obs['signal']), nontrivial=True,
+                     sample={'targets': obs['targets'], 'when': obs['when'], 'signal': obs['signal'], 'latency_s': obs['latency_s'],
+                             'starts': len([1 for x in obs['trace'] if x[0] == 'start'])})
+            ck.tally('sig:when=mid-build-after-change')
+            if 'C10' in V:
+                o = dict(obs)
+                o.update({'outcome': 'signal', 'fail': [], 'gated': True, 'stderr_tail': ''})
+                found.append((o, V['C10']))
     return found
 
 
